@@ -57,7 +57,7 @@ Print Assumptions C07_literals_reviewed.
    buffer `d ++ rest` (whatever stale bytes follow the datagram) with num_bytes = |d| it is the
    modelled classifier — in particular none of its panic sites (slices, the subtraction, the unwrap)
    is reachable — so C07_only_wellformed holds of the code as written today. *)
-Require Import RV.Model.GenSupport RV.Gen.Code RV.Proofs.CodeFacts.
+Require Import RV.Model.GenSupport RV.Gen.Code RV.Proofs.CodeRequest.
 
 Theorem C07_translated_classifier_is_model :
   forall srv d rest, gen_nonce_from_request (d ++ rest) (lenN d) srv = classify srv d.
@@ -77,12 +77,12 @@ Print Assumptions C07_translated_classifier_only_wellformed.
    accepted ones on the responder of their protocol, records exactly one event per datagram and
    reports an empty socket exactly when fewer than batch_size were waiting — the model's `collect`
    on the datagrams read (the stale tail of the receive buffer is not compared) ---- *)
-Require RV.Proofs.CodeServer.
+Require RV.Proofs.CodeLib RV.Proofs.CodeCollect.
 Theorem C07_translated_collect_is_model :
   forall H srv cfg n q buf ri rc st i,
-  RV.Proofs.CodeServer.omap (fun '(b, (q', _, ri', rc', st')) => (b, q', ri', rc', st'))
+  RV.Proofs.CodeLib.omap (fun '(b, (q', _, ri', rc', st')) => (b, q', ri', rc', st'))
        (gen_collect_requests H (N.of_nat n) q buf srv ri rc st)
   = obind (collect H srv cfg ri rc (firstn n q) i) (fun '(ri', rc', sts, _) =>
       Ok ((length q <? n)%nat, skipn n q, ri', rc', st ++ sts)).
-Proof. exact RV.Proofs.CodeServer.gen_collect_requests_model. Qed.
+Proof. exact RV.Proofs.CodeCollect.gen_collect_requests_model. Qed.
 Print Assumptions C07_translated_collect_is_model.
